@@ -92,6 +92,15 @@ impl Scenario for C09S {
             "delay_us": *r.pick(&[0u64, 0, 50, 500, 5000]),
         })
     }
+    fn died(&self, how: &str, text: &str) -> Option<Violation> {
+        // the scenario's main thread drops the receiver or packs it into a carrier message before
+        // the other threads start; neither may block
+        if how == "sim-abort" && text.contains("DEADLOCK") {
+            let line = text.lines().find(|l| l.contains("'main'")).unwrap_or("").trim().to_string();
+            return Some(Violation { sig: "hang:drop-or-pack-receiver".into(), detail: format!("dropping the receiver, or sending it inside a message, blocked for ever: {}", line) });
+        }
+        None
+    }
     fn run(&self, p: &Value) -> Outcome {
         let mut out = Outcome::default();
         start_sim(p);
